@@ -670,7 +670,10 @@ def run(spec):
         return 'ok', out
     kind, res = core.in_fork(lambda: execute(spec), RUN_TIMEOUT)
     if kind == 'ok' and not res.get('class') and spec['mode'] == 'enumerate' and 'base_text' in res \
-            and int(core.digest_of(spec['tree'])[-1], 16) % 3 == 0:
+            and int(core.digest_of(spec['tree'])[-1], 16) % 3 == 0 \
+            and not (spec.get('settings') or {}).get('sort_dict_keys'):
+        # (not with sort_dict_keys: keys that cannot be compared are ordered by id(), and the two processes
+        # compared here build the tree separately)
         # one tree in three: in a pristine process, let the FIRST print be a failing one; the fault-free print
         # that follows must equal the fault-free print of a process that never saw a failure
         n = res['counters'].get('invocations', 1)
